@@ -416,10 +416,12 @@ class FiniteAutomaton:
         for final_state in self._final_states:
             fst.add_final_state(final_state.value)
         for s_from, symb_by, s_to in self._transition_function.get_edges():
+            # An epsilon transition writes nothing
+            output = [] if symb_by == Epsilon() else [symb_by.value]
             fst.add_transition(s_from.value,
                                symb_by.value,
                                s_to.value,
-                               [symb_by.value])
+                               output)
         return fst
 
     def is_acyclic(self) -> bool:
